@@ -27,12 +27,12 @@ SEED_CHECKS = {'C01-a': ['C01', 'C12'], 'C12-a': ['C12'], 'C13-a': ['C13'], 'C05
                'C01-f': ['C01', 'C16'], 'C02-f': ['C02', 'C08'], 'C03-f': ['C03'], 'C04-f': ['C04'], 'C05-f': ['C05'], 'C06-f': ['C06'], 'C07-f': ['C07'],
                'C08-f': ['C08', 'C10'], 'C09-f': ['C09'], 'C10-f': ['C10'], 'C11-f': ['C11'], 'C12-f': ['C12'], 'C13-f': ['C13'], 'C15-f': ['C15'], 'C16-d': ['C16'],
                'C17-f': ['C17'], 'C18-f': ['C18'],
-               'C01-g': ['C01', 'C13'], 'C02-g': ['C02'], 'C03-g': ['C03'], 'C05-g': ['C05'], 'C06-g': ['C06'], 'C07-g': ['C07'], 'C08-g': ['C08'],
+               'C01-g': ['C01', 'C13'], 'C02-g': ['C02'], 'C03-g': ['C03'], 'C04-g': ['C04'], 'C05-g': ['C05'], 'C06-g': ['C06'], 'C07-g': ['C07'], 'C08-g': ['C08'],
                'C09-g': ['C09'], 'C10-g': ['C10'], 'C11-g': ['C11'], 'C12-g': ['C12'], 'C13-g': ['C13'], 'C15-g': ['C15'], 'C16-e': ['C16', 'C18'],
                'C17-g': ['C17', 'C02'], 'C18-g': ['C18', 'C16'],
                'C01-h': ['C01'], 'C02-h': ['C02'], 'C03-h': ['C03'], 'C04-h': ['C04', 'C18'], 'C05-h': ['C05'], 'C06-h': ['C06'], 'C07-h': ['C07'],
-               'C08-h': ['C08'], 'C09-h': ['C09', 'C10'], 'C10-h': ['C10'], 'C11-h': ['C11'], 'C13-h': ['C13'], 'C15-h': ['C15'], 'C16-f': ['C16'],
-               'C17-h': ['C17'], 'C18-h': ['C18']}
+               'C08-h': ['C08'], 'C09-h': ['C09', 'C10'], 'C10-h': ['C10'], 'C11-h': ['C11'], 'C12-h': ['C12'], 'C13-h': ['C13'], 'C15-h': ['C15'], 'C16-f': ['C16'],
+               'C17-h': ['C17'], 'C18-h': ['C18'], 'C19-a': ['C19']}
 
 
 def run(pid):
